@@ -36,7 +36,7 @@ CHECKS = {
    note=E2_NOTE),
  "C03": dict(engine="E2-sched", cat="model_checking", ref="DESIGN.md §5 C03",
    technique="stateless preemption-bounded DFS over the real subscribe/scan/hand-off/live steps of Store::read interleaved with appenders",
-   text="For pre-histories of 0-3 (and 101) frames, start positions beginning / last-id / tail, all-contexts and scoped readers: every interleaving (within the bound) of the writers' append steps with the reader's subscribe, every historical send, threshold, done hand-off, live receive/send and consumer receive on the real code; required / optional / forbidden deliveries are derived from the statement and the explorer's own event order.",
+   text="For pre-histories of 0-3 (and 101) frames, start positions beginning / last-id / tail, all-contexts and scoped readers, writers appending stored and ephemeral frames in every order: every interleaving (within the bound) of the writers' append steps with the reader's subscribe, every historical send, threshold, done hand-off, live receive/send and consumer receive on the real code; required / optional / forbidden deliveries are derived from the statement and the explorer's own event order.",
    note=E2_NOTE),
  "C11": dict(engine="E2-sched", cat="model_checking", ref="DESIGN.md §5 C11",
    technique="stateless preemption-bounded DFS over Store::read with limit / tail / heartbeat / small channel capacities under a controlled scheduler",
@@ -45,7 +45,7 @@ CHECKS = {
 
  "C12": dict(engine="E6-enum+E4-http", cat="model_checking", ref="DESIGN.md §5 C12, §4 E6",
    technique="bounded exhaustive enumeration of input shapes (token grammars) through the real parsers and the real HTTP boundary, round-trip and rejection oracles",
-   text="Every TTL string of <=3 tokens over a 17-token alphabet through parse_ttl, both spellings and POST /t?ttl=; every ReadOptions value of an 8x2x2x4x3 product and every <=3-pair query string through to_query_string/from_query; every meta text of the alphabet (integer extremes, escapes, surrogates, nesting depth 1..200) through POST /{topic} and frames over topic x hash x ttl x meta through POST /import; after every acceptance the store is re-read on all paths (a reading panic is a violation).",
+   text="Every TTL string of <=3 tokens over a 17-token alphabet through parse_ttl, both spellings and POST /t?ttl=; every ReadOptions value of an 8x2x2x4x3 product and every <=3-pair query string through to_query_string/from_query; every meta text of the alphabet (integer extremes, escapes, surrogates, nesting depth 1..200) through POST /{topic} and frames over topic x hash x ttl x meta through POST /import; frames built as Rust values (TTL values no string spells x metas) through Store::append / Store::insert_frame; after every acceptance the store is re-read on all paths (a reading panic is a violation).",
    note="Trusted: serde_json, serde_urlencoded, ssri, hyper. Bounded by the token alphabets in coverage.rule; values outside them are not covered."),
  "C13": dict(engine="E4-http", cat="model_checking", ref="DESIGN.md §5 C13, §4 E4",
    technique="exhaustive enumeration of request sequences up to length 2 (3 on a core) against the real HTTP server, differential oracle against the Store API on the same store",
@@ -72,7 +72,7 @@ CHECKS = {
 
  "C15": dict(engine="E5-lifecycle", cat="model_checking", ref="DESIGN.md §5 C15",
    technique="bounded exhaustive enumeration of handler programs (script grammar) executed by the real handler machinery, per-call oracle from the statement",
-   text="Every handler script of the grammar {0..2 explicit .append x flags (none, --meta colliding with the stamps, --ttl, --context other)} x {return nothing/string/int/float/bool/list/record} x {return_options none/suffix/ttl head/ttl time/ephemeral} x {failure none/before/between/after the appends} is registered on a fresh store behind the real handlers::serve, triggered once and flushed by a sentinel: order, stamps overriding user meta, forced context, TTLs, CAS content == JSON rendering, nothing at all on failure plus exactly one unregistered with the error.",
+   text="Every handler script of the grammar {0..2 explicit .append x flags (none, --meta colliding with the stamps, --ttl, --context other), plus appends the store refuses at emission (xs.context outside the zero context, NUL topic) in first/middle/last position} x {return nothing/string/int/float/bool/list/record/empty values} x {return_options none/suffix/ttl head/ttl time/ephemeral} x {failure none/before/between/after the appends} is registered on a fresh store behind the real handlers::serve, triggered once and flushed by a sentinel: order, stamps overriding user meta, forced context, TTLs, CAS content == JSON rendering, nothing at all on failure plus exactly one unregistered with the error.",
    note="Trusted: nushell (explored through). The serve loop's schedule is the OS's; programs are enumerated, schedules are C03/C16's. quick = every value of every dimension and all pairs with the append shape; thorough = the full product."),
  "C16": dict(engine="E2-sched+E5-lifecycle", cat="model_checking", ref="DESIGN.md §5 C16",
    technique="all interleavings of the handler start-up (spawner announce / task start+subscribe / client) under the controlled scheduler, plus exhaustive lifecycle histories against a reference model",
@@ -81,7 +81,7 @@ CHECKS = {
 
  "C18": dict(engine="E5-lifecycle", cat="model_checking", ref="DESIGN.md §5 C18",
    technique="bounded exhaustive enumeration of generator expressions, lifecycles, spawn errors and duplex send sequences against the real generators::serve",
-   text="Expressions yielding 0..3 strings as single value / list value / lazy stream x context x 1-2 consecutive lifecycles (real 1 s restart delay): start, recv per string with that content, stop, restart, all stamped with the spawn id and in the spawn's context; spawn without content, spawn for a running name (exactly one spawn.error naming it), the same name in another context (independent); duplex echo with 0..3 sends, with interleaved unrelated traffic, a send before the instance, a same-name send in another context and a look-alike topic, closed by a sentinel send.",
+   text="Expressions yielding 0..3 strings as single value / list value / lazy stream x context x 1-2 consecutive lifecycles (real 1 s restart delay): start, recv per string with that content, stop, restart, all stamped with the spawn id and in the spawn's context; spawn without content, spawn for a running name (exactly one spawn.error naming it), the same name in another context (independent); rejected-spawn lifecycles (duplicate / content-less spawns while an instance exists, then its stop, restart, a further spawn and sends); duplex echo with 0..3 sends, with interleaved unrelated traffic, a send before the instance, a same-name send in another context and a look-alike topic, closed by a sentinel send.",
    note="Trusted: nushell. Expressions that fail to parse, yield non-strings or the empty string are outside the grammar. Sentinel-based quiescence; the restart delay is real time."),
  "C19": dict(engine="E5-lifecycle", cat="model_checking", ref="DESIGN.md §5 C19",
    technique="bounded exhaustive enumeration of command programs and of define/call histories (incl. overlapping calls) against the real commands::serve",
@@ -90,12 +90,12 @@ CHECKS = {
 
  "C17": dict(engine="E5-lifecycle (real binary)", cat="model_checking", ref="DESIGN.md §5 C17",
    technique="bounded exhaustive enumeration of lifecycle histories x restart points x {SIGKILL, SIGTERM} against the real `xs serve` child process, reference model of the active set",
-   text="Histories of register / unregister / replace / closure error, spawn / failing spawn, define / invalid define / call over 2 names x 2 contexts with the same name used in both contexts (quick: a fixed family of 16 histories x last two restart points x both signals; thorough: + every history of depth <= 3 over a 12-event alphabet x every restart point). After the restart, sentinels prove every serve loop is live; the handlers announced and the generators started must be exactly the active ones with their old ids, each answers a probe, commands are served by the latest definition of their own context, nothing that was stopped answers, no historical trigger or call is executed again.",
+   text="Histories of register / unregister / replace / closure error, spawn / failing spawn, define / invalid define / call over 2 names x 2 contexts with the same name used in both contexts (quick: a fixed family of 21 histories x last two restart points x both signals; thorough: + every history of depth <= 3 over a 16-event alphabet x every restart point). After the restart, sentinels prove every serve loop is live; the handlers announced and the generators started must be exactly the active ones with their old ids, each answers a probe, commands are served by the latest definition of their own context, nothing that was stopped answers, no historical trigger or call is executed again.",
    note="The child is the real `xs serve` binary built from /repo's working tree; its internal schedule is the OS's. Restart points are quiescent boundaries of the history (crash points inside an operation are C04's). Absence is decided after the expected answers plus an 80 ms grace period."),
 
  "C14": dict(engine="E5-lifecycle", cat="model_checking", ref="DESIGN.md §5 C14, §10 (fallback)",
    technique="bounded exhaustive enumeration of handler histories (resume mode x pre-history x co-resident handler x burst composition) on the real handler machinery; complete invocation sequence reconstructed from the handler's own outputs and compared with the stream",
-   text="Resume mode tail / head / after-id x pre-history with or without an earlier instance of the same name (its register/unregister traffic and output) x a second handler in the same context x bursts of 0/1/3 frames from two writers into the handler's context and into another context while it is busy. The handler answers every frame with a per-instance counter; the sequence of meta.frame_id on its outputs must equal the context's stream after the resume point minus its own outputs and stale registration traffic - once each, strictly increasing, nothing of another context, one threshold for non-tail modes - and the counter must run 1,2,3,... (one at a time, env carried over).",
+   text="Resume mode tail / head / after-id x pre-history with or without an earlier instance of the same name (its register/unregister traffic and output) x a second handler in the same context x bursts of 0/1/3 frames (stored, optionally mixed with ephemeral ones) from two writers into the handler's context and into another context while it is busy x the after-id resume point (oldest / newest / last frame / an id of another context); a frame carrying another handler's stamp is part of every history. The handler answers every frame with a per-instance counter; the sequence of meta.frame_id on its outputs must equal the context's stream after the resume point minus its own outputs and stale registration traffic - once each, strictly increasing, nothing of another context, one threshold for non-tail modes - and the counter must run 1,2,3,... (one at a time, env carried over).",
    note="DESIGN.md §10 fallback applies: histories and burst compositions are enumerated, the interleaving of a burst with the busy handler is the OS's; the schedule dimension of the stream the handler consumes is decided exhaustively by C03 and the start-up race by C16."),
 }
 NOT_YET = {}
